@@ -1425,6 +1425,118 @@ def scope_stream(ctx, cirq, V, n):
 
 
 # ----------------------------------------------------------------------------------------------------------------
+# stream 7: exact outcome distribution of wrapped vs unrolled circuits with superpositions: a scripted object passed
+# as `seed` answers every measurement draw from a branch script; DFS over the scripts enumerates all branches with the
+# probabilities the simulator itself supplied (DESIGN A.3)
+class NeedBranch(Exception):
+    def __init__(self, probs):
+        self.probs = probs
+
+
+class ScriptedSeed:
+    def __init__(self, script):
+        self.script, self.pos, self.p = list(script), 0, 1.0
+
+    def _draw(self, p):
+        if self.pos >= len(self.script):
+            raise NeedBranch([float(x) for x in p])
+        k = self.script[self.pos]
+        self.pos += 1
+        self.p *= float(p[k])
+        return k
+
+    def choice(self, a, size=None, p=None, replace=True):
+        n = a if isinstance(a, (int, np.integer)) else len(a)
+        if p is None:
+            p = [1.0 / n] * n
+        if size is None:
+            k = self._draw(p)
+            return k if isinstance(a, (int, np.integer)) else a[k]
+        cnt = int(np.prod(size))
+        ks = [self._draw(p) for _ in range(cnt)]
+        return np.array(ks if isinstance(a, (int, np.integer)) else [a[k] for k in ks]).reshape(size)
+
+    def randint(self, low, high=None, size=None):
+        lo, hi = (0, low) if high is None else (low, high)
+        return lo + self.choice(hi - lo, size=size)
+
+    def random(self, size=None):
+        raise NotImplementedError('channels are not used in C12 circuits')
+
+
+def exact_distribution(cirq, circuit, max_branches=600):
+    """{canonical records: probability}, or None if the circuit has more branches than max_branches."""
+    dist, stack, n = {}, [[]], 0
+    while stack:
+        script = stack.pop()
+        seed = ScriptedSeed(script)
+        try:
+            r = cirq.Simulator(seed=seed, dtype=np.complex128).run(circuit, repetitions=1)
+        except NeedBranch as e:
+            for k, pk in enumerate(e.probs):
+                if pk > 1e-12:
+                    stack.append(script + [k])
+            continue
+        n += 1
+        if n > max_branches:
+            return None
+        key = runner.canon({k: np.asarray(v).tolist() for k, v in sorted(r.records.items())})
+        dist[key] = dist.get(key, 0.0) + seed.p
+    return dist
+
+
+def dist_defect(cirq, V, D):
+    op = V.sub(D)
+    flat = op.mapped_circuit(deep=True)
+    fin = cirq.Moment(cirq.measure(*sorted(op.qubits), key='fin')) if op.qubits else cirq.Moment()
+    a = attempt(lambda: exact_distribution(cirq, cirq.Circuit([cirq.Moment(op), fin])))
+    b = attempt(lambda: exact_distribution(cirq, cirq.Circuit(list(flat.moments) + [fin])))
+    if a[0] != 'ok' or b[0] != 'ok':
+        return ('' if a[:2] == b[:2] else 'distribution-raises-differently'), a, b
+    if a[1] is None or b[1] is None:
+        return 'skip', a, b
+    if set(a[1]) != set(b[1]) or any(abs(a[1][k] - b[1][k]) > 1e-8 for k in a[1]):
+        return 'distribution-wrapped-vs-unrolled', a, b
+    if abs(sum(a[1].values()) - 1) > 1e-8:
+        return 'distribution-mass-not-one', a, b
+    return '', a, b
+
+
+def n_meas_bits(D):
+    if D['t'] == 'leaf':
+        return len(D['qs']) if D['mk'] else 0
+    r = D['reps'] if isinstance(D['reps'], int) else 1
+    return abs(r) * sum(n_meas_bits(x) for m in D['c'] for x in m)
+
+
+def dist_stream(ctx, cirq, V, n):
+    rng = ctx.rng
+    gen = Gen(rng, sim=True, param_leaves=True)
+    done = tries = 0
+    while done < n and tries < 40 * n and not over_time(ctx):
+        tries += 1
+        rec = gen.sub(rng.choice([0, 1, 1, 2]), 3, False, [], exact_depth=True)
+        if rec is None or not (1 <= n_meas_bits(rec) <= 5) or attempt(lambda: V.sub(rec))[0] != 'ok':
+            continue
+        op = V.sub(rec)
+        D = V.dsub(op)
+        if attempt(lambda: op.mapped_circuit(deep=True))[0] != 'ok':
+            continue
+        kind, a, b = dist_defect(cirq, V, D)
+        if kind == 'skip':
+            continue
+        done += 1
+        ok = a[0] == 'ok'
+        ctx.count('sim:distribution' if ok else 'sim:distribution-both-raise', D, ok and len(a[1]) >= 2,
+                  sample=dict(op=repr(op)[:400], branches=len(a[1]) if ok else None,
+                              distribution=({k[:80]: round(v, 6) for k, v in list(a[1].items())[:4]} if ok else a[1:])))
+        if kind:
+            small = D if seen(ctx, f'sim:{kind}') else shrink(D, lambda x: dist_defect(cirq, V, x)[0] == kind, budget=100)
+            ctx.violation(f'sim:{kind}', f'{kind}: {str(a[1])[:400]} vs {str(b[1])[:400]}; minimised operation: {V.sub(small)!r}'[:1800],
+                          dict(kind='dist', rec=small, defect=kind))
+
+
+# ----------------------------------------------------------------------------------------------------------------
 def run(ctx):
     cirq = env.import_cirq()
     V = Vocab(cirq)
@@ -1441,7 +1553,8 @@ def run(ctx):
     timing = {'build_and_props_s': round(time.time() - ctx.t0, 1)}
     SHRINK.update(t0=time.time(), spent=0.0)
     for name, f, nq, nt in (('keys', key_stream, 300, 3000), ('struct', struct_stream, 240, 2400), ('unitary', unitary_stream, 100, 1500),
-                            ('sim', sim_stream, 120, 1500), ('until', until_stream, 40, 400), ('scoping', scope_stream, 60, 600)):
+                            ('sim', sim_stream, 120, 1500), ('until', until_stream, 40, 400), ('scoping', scope_stream, 60, 600),
+                            ('distribution', dist_stream, 60, 600)):
         t = time.time()
         f(ctx, cirq, V, nq if quick else nt)
         timing[name + '_s'] = round(time.time() - t, 1)
@@ -1524,6 +1637,10 @@ def replay(ctx, data):
         d = unitary_defect(cirq, V, D)
         print('unitary:', d or 'equal to the unrolled circuit')
         return d == ''
+    if k == 'dist':
+        d, a, b = dist_defect(cirq, V, D)
+        print('distribution:', d or 'wrapped and unrolled agree', str(a[1])[:600])
+        return d in ('', 'skip')
     if k in ('sim', 'until'):
         prep = [[norm_rec(o) for o in m] for m in data['prep']]
         if k == 'sim':
